@@ -15,7 +15,7 @@ ASSUMPTIONS = [
     "relational check: after every step the long-lived object is compared with a freshly created object holding the same settings, as symbolic dictionaries, on both sides of every cache-comparison fork (the solver decides old == new and old != new)",
 ]
 BOUNDS = {
-    "quick": "Sampler and QuickSampler on 2-3 mode circuits with symbolic reflectivity / parameter values / brightness; every sequence of 2 reconfigurations out of 11 (reassign circuit, reassign circuit with the same unitary but a different herald photon number, move the herald, edit the circuit in place, set a circuit Parameter v1->v2, change input, brightness old->new, backend, post-selection reassigned, post-selection object edited in place, detector mode) with a distribution read in between or not; sampling without a prior read; Analyzer with and without expected",
+    "quick": "Sampler and QuickSampler on 2-3 mode circuits with symbolic reflectivity / parameter values / brightness; every sequence of 2 reconfigurations out of 11 (reassign circuit, reassign circuit with the same unitary but a different herald photon number, move the herald, edit the circuit in place, set a circuit Parameter v1->v2, change input, brightness old->new, backend, post-selection reassigned, post-selection object edited in place, detector mode) with a distribution read in between or not; sampling without a prior read; distribution read again after each sampling method with the probability threshold raised to 1e-3 (reaches the renormalising branch of sample_N_inputs through the sum-to-one contract of Generator.choice); Analyzer with and without expected",
     "thorough": "sequences of 3 reconfigurations starting with a herald move, herald photon change, parameter set or input change",
 }
 OUTSIDE = "longer histories; purity/indistinguishability changes (covered for fresh objects by C06)"
@@ -260,6 +260,56 @@ def h_sample_without_read(ctx, kind, op):
             ctx.check_eq(law.get(k, 0) * tot, v, f"{kind}:sample-draws-from-the-current-distribution")
 
 
+def h_read_after_sampling(ctx, kind, method):
+    """a sampling call is not a reconfiguration: what the object reports afterwards is still what a
+    fresh object reports.  The probability threshold (a public setting) is raised to 1e-3 so that one
+    dropped output already leaves the stored distribution short of one by more than the tolerance of
+    numpy's Generator.choice, which is what sends sample_N_inputs into its renormalising except-branch."""
+    from symx import stubs
+    from .c07 import _world_run
+    lw = ctx.lw
+    old = lw.settings.sampler_probability_threshold
+    lw.settings.sampler_probability_threshold = ctx.m.frac(1, 1000)
+    try:
+        r = ctx.real("r", 0, 1)
+        c = lw.Circuit(2)
+        c.bs(0, reflectivity=r)
+
+        def mk():
+            if kind == "sampler":
+                return lw.emulator.Sampler(c, lw.State([1, 0]))
+            return lw.emulator.QuickSampler(c, lw.State([1, 0]))
+        obj = mk()
+        before, e0 = _dist(ctx, obj)
+        if before is None:
+            ctx.reached()
+            return
+        calls = {"sample_N_inputs": lambda: obj.sample_N_inputs(1, seed=3), "sample_N_outputs": lambda: obj.sample_N_outputs(1, seed=3),
+                 "sample": obj.sample}
+        en = stubs.Enumerator()
+
+        def once():
+            try:
+                _world_run(ctx, en, calls[method])
+            except (ValueError, lw.emulator.EmulatorError, ZeroDivisionError):
+                pass
+            return 0
+        en.run_all(once)
+        after, e1 = _dist(ctx, obj)
+        fresh, e2 = _dist(ctx, mk())
+        label = f"read-after-{method}:{kind}"
+        if after is None or fresh is None:
+            ctx.check(e1 == e2, label + ":same-outcome-as-fresh-object", {"long-lived": e1, "fresh": e2})
+            return
+        ctx.check(sorted(after) == sorted(fresh), label + ":same-support-as-fresh-object")
+        for k in set(after) & set(fresh):
+            ctx.check_eq(after[k], fresh[k], label + ":same-distribution-as-fresh-object")
+        for k in set(after) & set(before):
+            ctx.check_eq(after[k], before[k], label + ":same-distribution-as-before-the-sampling-call")
+    finally:
+        lw.settings.sampler_probability_threshold = old
+
+
 def h_analyzer(ctx, first_expected, second_expected):
     lw = ctx.lw
     c = lw.Circuit(2)
@@ -425,5 +475,7 @@ def harnesses(tier):
         ("sample-without-read", h_sample_without_read, swr),
         ("analyzer", h_analyzer, [dict(first_expected=a, second_expected=b) for a in (True, False) for b in (True, False)]),
         ("size-change", h_size_change, [dict(kind=k, read_first=r, method=m) for k in ("sampler", "quick") for r in (True, False) for m in ("read", "sample")]),
+        ("read-after-sampling", h_read_after_sampling, [dict(kind="sampler", method=m) for m in ("sample_N_inputs", "sample_N_outputs", "sample")]
+         + [dict(kind="quick", method=m) for m in ("sample_N_outputs", "sample")]),
         ("analyzer-history", h_analyzer_history, [dict(ops=[a]) for a in AN_OPS] + [dict(ops=[a, b]) for a in AN_OPS for b in AN_OPS if a != b or a == "loss-added-in-place"]),
     ]
